@@ -232,6 +232,7 @@ func runC15(c *Ctx) {
 	r.Doc("D6", "the deferred wait-for-zero covers the error exit (E4)", 2)
 	r.Doc("D7", "v2 New: error of validation/prepare returned with a nil discipline; go only on the no-error edges", 2)
 	r.Doc("D8", "zero-share rejection quantifies over the registered priorities", 1)
+	r.Doc("D9", "v1 Simple forwards every error it receives from the inner discipline to its own Err()", 1)
 	for _, p := range []*Prog{c.V1, c.V2} {
 		pr, err := resolvePrio(p)
 		if err != nil {
@@ -258,6 +259,9 @@ func runC15(c *Ctx) {
 			c.R.Check(o.OK, rule, o.Key, o.Site, o.Detail, o.Detail)
 		}
 		checkD5bad(c, pr)
+		if pr.v1 {
+			checkErrForwarding(c, p, "D9")
+		}
 		checkD5b(c, pr)
 	}
 	checkD7D8(c)
